@@ -29,10 +29,13 @@ pub fn trigger_cancel_panic() -> ! {
     //     eprintln!("trigger another panic while panicking");
     // }
 
-    // should we clear the cancel flag to let other API continue?
-    // so that we can avoid the re-panic problem?
-    // currently this is not used in any drop implementation
-    // current_cancel_data().state.store(0, Ordering::Release);
+    // the cancel request is consumed by this panic: values dropped while it
+    // unwinds may use the coroutine API again (WaitGroup's own drop locks a
+    // mutex), a second Cancel panic raised from there would abort the process.
+    // The cancel bit stays set, it tells the lock guards not to poison
+    if crate::coroutine_impl::is_coroutine() {
+        crate::coroutine_impl::current_cancel_data().disable_cancel();
+    }
     std::panic::panic_any(Error::Cancel);
 }
 
@@ -95,6 +98,11 @@ impl<T: CancelIo> CancelImpl<T> {
     // judge if the coroutine cancel flag is set
     pub fn is_canceled(&self) -> bool {
         self.state.load(Ordering::Acquire) == 1
+    }
+
+    // judge if a cancel was requested, no matter if it is disabled
+    pub fn is_cancel_requested(&self) -> bool {
+        self.state.load(Ordering::Acquire) & 1 == 1
     }
 
     // return if the coroutine cancel is disabled
